@@ -517,6 +517,7 @@ func journalFlat(evs []tlmetadata.Event) []int64 {
 type sEnt struct {
 	id, typ, p, l, ver int64
 	old                []int64
+	nsOff              bool // last saved by a request of another type whose namespace rule differs: stored namespace id does not belong to the name
 }
 type shadow struct {
 	ents   map[int64]*sEnt
@@ -1164,9 +1165,17 @@ func oracles(o *rec, sh *shadow, fl *floodOracle, x *op, res string, c config, m
 			sh.ids = append(sh.ids, x.rid)
 		}
 		// "entity names are unique per type (and namespace)"
+		namespaced := func(t int64) bool { return t == 0 || t == 2 }
+		e.nsOff = known && x.typ != e.typ && namespaced(x.typ) != namespaced(e.typ) && x.p != 0
 		for _, other := range sh.ents {
 			if other.id != e.id && other.typ == e.typ && other.p == x.p && other.l == x.l {
-				o.Fail("duplicate_name", line, where())
+				if e.nsOff || other.nsOff {
+					// exactly finding F-C15b: one of the two holds the name under a namespace id stored by an edit of another type
+					o.Fail("duplicate_name_via_other_type_edit", line, where())
+					tags["duplicate_name_other_type"] = true
+				} else {
+					o.Fail("duplicate_name", line, where())
+				}
 			}
 		}
 		// "entities in a namespace must reference an existing namespace"
@@ -1332,13 +1341,19 @@ func finalOracles(o *rec, line int, input string, sh *shadow, d metadata.VerifDu
 	}
 	// versions and (type, name) unique over the whole table
 	vs := map[int64]bool{}
-	ns := map[string]bool{}
+	ns := map[string]int64{}
 	for _, r := range d.Ents {
 		k := fmt.Sprint(r.Type, "/", r.Name)
-		if vs[r.Version] || ns[k] {
-			o.Fail("duplicate_version_or_name_in_table", line, input)
+		nsid, dup := ns[k]
+		switch {
+		case vs[r.Version] || (dup && nsid == r.NamespaceID):
+			o.Fail("duplicate_version_or_name_in_table", line, input) // excluded by the UNIQUE keys themselves
+		case dup && tags["duplicate_name_other_type"]:
+			o.Fail("duplicate_name_in_table_via_other_type_edit", line, input) // F-C15b, already reported at the step
+		case dup:
+			o.Fail("duplicate_name_in_table", line, input)
 		}
-		vs[r.Version], ns[k] = true, true
+		vs[r.Version], ns[k] = true, r.NamespaceID
 	}
 	// "a string is mapped to at most one positive id and an id to at most one string"
 	ids := map[int64]bool{}
@@ -1430,6 +1445,23 @@ func witnesses(o *vu.Out, root string) {
 		b := save(clock, db, 0, 2, a.rid, a.rver, false, 0)
 		d, _ := metadata.VerifDumpDB(db)
 		return b.ok && len(d.Ents) == 1 && d.Ents[0].Name == "n2" && d.Ents[0].Type == 4
+	})
+	// F-C15b: two metrics named "n2:n4" (an edit of another type stored namespace id 0 under the namespaced name)
+	run("F-C15b", c0, func(clock *int64, dir string, db *metadata.DBV2) bool {
+		defer db.Close()
+		n := save(clock, db, 0, 2, 0, 0, true, 4)
+		a := save(clock, db, 2, 4, 0, 0, true, 0)
+		a2 := save(clock, db, 2, 4, a.rid, a.rver, false, 1)
+		b := save(clock, db, 0, 9, 0, 0, true, 0)
+		b2 := save(clock, db, 2, 4, b.rid, b.rver, false, 0)
+		d, _ := metadata.VerifDumpDB(db)
+		cnt := 0
+		for _, r := range d.Ents {
+			if r.Type == 0 && r.Name == "n2:n4" {
+				cnt++
+			}
+		}
+		return n.ok && a2.ok && b2.ok && cnt == 2
 	})
 	// F-C16a: a renamed metric reverts to its old name and version after replay
 	run("F-C16a", c0, func(clock *int64, dir string, db *metadata.DBV2) bool {
